@@ -2,6 +2,7 @@ import Qsx.Model.Wire
 import Qsx.Model.Driver
 import Qsx.Model.Num
 import Qsx.Model.BasisFile
+import Qsx.Model.Spec
 open Qsx
 
 def hexVal (c : Char) : Option Nat :=
@@ -36,6 +37,165 @@ def pStage (cx : Ctx) : P Stage := do
 def fmtOpt (cx : Ctx) (key : String) : Option (Array Rat) → String
   | none => key ++ " untouched"
   | some a => fmtArr cx key a
+
+def hexStr (s : String) : String :=
+  if s.isEmpty then "-" else
+  s.toList.foldl (fun acc c =>
+    let n := c.toNat
+    let d (k : Nat) : Char := if k < 10 then Char.ofNat (48 + k) else Char.ofNat (87 + k)
+    acc.push (d (n / 16)) |>.push (d (n % 16))) ""
+
+def pName : P (Option String) := do
+  let t ← pTok
+  if t == "-" then pure none else
+  match unhex t with
+  | some cs => pure (some (String.ofList cs))
+  | none => failure
+
+def pIntEnt (cx : Ctx) : P (List (Int × Rat)) := do
+  let k ← pNat
+  let a ← pMany k (do let i ← pInt; let v ← pRat cx; pure (i, v))
+  pure a.toList
+
+def pChar : P Char := do let t ← pTok; pure t.front
+
+open Qsx.Spec in
+/-- edit operations in the harness's command syntax ↦ `Spec.Op` (the slot token already consumed) -/
+def pOp (cx : Ctx) (cmd : String) : P Op := do
+  match cmd with
+  | "addcol" => do
+    let n ← pName; let o ← pRat cx; let l ← pRat cx; let u ← pRat cx; let e ← pIntEnt cx
+    pure (.addCol n o l u e)
+  | "newcol" => do
+    let n ← pName; let o ← pRat cx; let l ← pRat cx; let u ← pRat cx
+    pure (.addCol n o l u [])
+  | "addrow" => do
+    let n ← pName; let s ← pChar; let r ← pRat cx; let e ← pIntEnt cx
+    pure (.addRow n s r 0 e)
+  | "addrrow" => do
+    let n ← pName; let s ← pChar; let r ← pRat cx; let g ← pRat cx; let e ← pIntEnt cx
+    pure (.addRow n s r g e)
+  | "newrow" => do
+    let n ← pName; let s ← pChar; let r ← pRat cx
+    pure (.addRow n s r 0 [])
+  | "delrow" => do let i ← pInt; pure (.delRows [i])
+  | "delcol" => do let i ← pInt; pure (.delCols [i])
+  | "delrows" => do let k ← pNat; let a ← pMany k pInt; pure (.delRows a.toList)
+  | "delcols" => do let k ← pNat; let a ← pMany k pInt; pure (.delCols a.toList)
+  | "delsetrows" => do
+    let k ← pNat; let a ← pMany k pInt
+    pure (.delRows ((List.range k).filter (fun i => a[i]! == 1) |>.map Int.ofNat))
+  | "delsetcols" => do
+    let k ← pNat; let a ← pMany k pInt
+    pure (.delCols ((List.range k).filter (fun i => a[i]! == 1) |>.map Int.ofNat))
+  | "delnamedrow" => do let n ← pName; pure (.delNamedRows [n.getD ""])
+  | "delnamedcol" => do let n ← pName; pure (.delNamedCols [n.getD ""])
+  | "delnamedrows" => do let k ← pNat; let a ← pMany k pName; pure (.delNamedRows (a.toList.map (·.getD "")))
+  | "delnamedcols" => do let k ← pNat; let a ← pMany k pName; pure (.delNamedCols (a.toList.map (·.getD "")))
+  | "chgcoef" => do let r ← pInt; let c ← pInt; let v ← pRat cx; pure (.chgCoef r c v)
+  | "chgobj" => do let c ← pInt; let v ← pRat cx; pure (.chgObj c v)
+  | "chgrhs" => do let r ← pInt; let v ← pRat cx; pure (.chgRhs r v)
+  | "chgrange" => do let r ← pInt; let v ← pRat cx; pure (.chgRange r v)
+  | "chgsense" => do let r ← pInt; let s ← pChar; pure (.chgSenses [(r, s)])
+  | "chgsenses" => do
+    let k ← pNat; let a ← pMany k (do let r ← pInt; let s ← pChar; pure (r, s)); pure (.chgSenses a.toList)
+  | "chgbound" => do let j ← pInt; let lu ← pChar; let v ← pRat cx; pure (.chgBounds [(j, lu, v)])
+  | "chgbounds" => do
+    let k ← pNat; let a ← pMany k (do let j ← pInt; let lu ← pChar; let v ← pRat cx; pure (j, lu, v))
+    pure (.chgBounds a.toList)
+  | "chgobjsense" => do
+    let t ← pTok
+    if t == "min" then pure (.chgObjSense 1) else if t == "max" then pure (.chgObjSense (-1))
+    else match t.toInt? with | some z => pure (.chgObjSense z) | none => failure
+  | _ => failure
+
+def specOfLP (L : LP) : Qsx.Spec.Prob :=
+  { isMin := L.isMin
+    cols := (List.range L.nc).toArray.map fun j => { name := s!"x{j}", obj := (L.col j).obj, lo := (L.col j).lo, up := (L.col j).up }
+    rows := (List.range L.nr).toArray.map fun i =>
+      let r := L.row i
+      { name := s!"c{i}", sense := r.sense, rhs := r.rhs, range := if r.sense == 'R' then r.range else 0,
+        ent := r.ent.mergeSort (fun a b => a.1 ≤ b.1) } }
+
+def fmtSpec (cx : Ctx) (p : Qsx.Spec.Prob) : List String :=
+  let cols := p.cols.foldl (fun s c => s ++ " " ++ fmtRat cx c.obj ++ " " ++ fmtRat cx c.lo ++ " " ++ fmtRat cx c.up) ""
+  let rows := p.rows.foldl (fun s r => s ++ " " ++ r.sense.toString ++ " " ++ fmtRat cx r.rhs ++ " " ++ fmtRat cx r.range ++ " " ++
+      toString r.ent.length ++ r.ent.foldl (fun t e => t ++ " " ++ toString e.1 ++ " " ++ fmtRat cx e.2) "") ""
+  [s!"api lp {if p.isMin then "min" else "max"} {p.cols.size} {p.rows.size}" ++ cols ++ rows,
+   s!"nzcount {Qsx.Spec.nzcount p}",
+   s!"colnames {p.cols.size}" ++ p.cols.foldl (fun s c => s ++ " " ++ hexStr c.name) "",
+   s!"rownames {p.rows.size}" ++ p.rows.foldl (fun s r => s ++ " " ++ hexStr r.name) ""]
+
+structure DState where
+  cx : Ctx := {}
+  slots : Array (Option Qsx.Spec.Prob) := Array.replicate 16 none
+
+/-- commands that act on the reference-model slots; `none` = not such a command -/
+def specAnswer (st : DState) (toks : List String) : Option (DState × List String) :=
+  match toks with
+  | ["create", k, sense] =>
+    match k.toNat? with
+    | some k => if k < 16 then some ({ st with slots := st.slots.set! k (some { isMin := sense != "max" }) }, ["rc 0"]) else some (st, ["bad-op"])
+    | none => some (st, ["bad-op"])
+  | "new" :: k :: rest =>
+    match k.toNat?, (pLP st.cx).run' rest with
+    | some k, some L => if k < 16 then some ({ st with slots := st.slots.set! k (some (specOfLP L)) }, ["ok"]) else some (st, ["bad-op"])
+    | _, _ => some (st, ["bad-op"])
+  | ["free", k] =>
+    match k.toNat? with
+    | some k => if k < 16 then some ({ st with slots := st.slots.set! k none }, ["ok"]) else some (st, ["bad-op"])
+    | none => some (st, ["bad-op"])
+  | ["copy", a, b] =>
+    match a.toNat?, b.toNat? with
+    | some a, some b =>
+      if a < 16 && b < 16 then
+        match st.slots[a]! with
+        | some p => some ({ st with slots := st.slots.set! b (some p) }, ["rc 0"])
+        | none => some (st, ["bad-op empty-slot"])
+      else some (st, ["bad-op"])
+    | _, _ => some (st, ["bad-op"])
+  | ["dumpapi", k] =>
+    match k.toNat? with
+    | some k => match st.slots.getD k none with
+      | some p => some (st, fmtSpec st.cx p)
+      | none => some (st, ["bad-op empty-slot"])
+    | none => some (st, ["bad-op"])
+  | ["getcoef", k, r, c] =>
+    match k.toNat?, r.toInt?, c.toInt? with
+    | some k, some r, some c => match st.slots.getD k none with
+      | some p => match Qsx.Spec.getCoef p r c with
+        | some v => some (st, ["rc 0", s!"coef {fmtRat st.cx v}"])
+        | none => some (st, ["rc 1"])
+      | none => some (st, ["bad-op empty-slot"])
+    | _, _, _ => some (st, ["bad-op"])
+  | [cmd, k, nm] =>
+    if cmd == "colindex" || cmd == "rowindex" then
+      match k.toNat?, (pName).run' [nm] with
+      | some k, some n => match st.slots.getD k none with
+        | some p =>
+          let r := if cmd == "colindex" then Qsx.Spec.colIndex? p (n.getD "") else Qsx.Spec.rowIndex? p (n.getD "")
+          match r with
+          | some i => some (st, ["rc 0", s!"index {i}"])
+          | none => some (st, ["rc 1"])
+        | none => some (st, ["bad-op empty-slot"])
+      | _, _ => some (st, ["bad-op"])
+    else specOp st toks
+  | _ => specOp st toks
+where
+  specOp (st : DState) (toks : List String) : Option (DState × List String) :=
+    match toks with
+    | cmd :: k :: rest =>
+      if !(["addcol", "newcol", "addrow", "addrrow", "newrow", "delrow", "delcol", "delrows", "delcols", "delsetrows", "delsetcols",
+            "delnamedrow", "delnamedcol", "delnamedrows", "delnamedcols", "chgcoef", "chgobj", "chgrhs", "chgrange", "chgsense",
+            "chgsenses", "chgbound", "chgbounds", "chgobjsense"].contains cmd) then none else
+      match k.toNat?, (pOp st.cx cmd).run' rest with
+      | some k, some op => match st.slots.getD k none with
+        | some p =>
+          let (p', r) := Qsx.Spec.step p op
+          some ({ st with slots := st.slots.set! k (some p') }, [if r == .ok then "rc 0" else "rc 1"])
+        | none => some (st, ["bad-op empty-slot"])
+      | _, _ => some (st, ["bad-op"])
+    | _ => none
 
 /-- one protocol line ↦ answer lines (without the terminating ".") -/
 def answer (cx : Ctx) (toks : List String) : Ctx × List String :=
@@ -128,15 +288,17 @@ def answer (cx : Ctx) (toks : List String) : Ctx × List String :=
     (cx, r.getD ["bad-op"])
   | _ => (cx, ["bad-op"])
 
-partial def loop (h : IO.FS.Stream) (out : IO.FS.Stream) (cx : Ctx) : IO Unit := do
+partial def loop (h : IO.FS.Stream) (out : IO.FS.Stream) (st : DState) : IO Unit := do
   let line ← h.getLine
   if line.isEmpty then return ()
   let toks := (line.trimAscii.toString.splitOn " ").filter (· ≠ "")
-  if toks.isEmpty then loop h out cx else
-  let (cx', ans) := answer cx toks
+  if toks.isEmpty then loop h out st else
+  let (st', ans) := match specAnswer st toks with
+    | some r => r
+    | none => let (cx', a) := answer st.cx toks; ({ st with cx := cx' }, a)
   for a in ans do out.putStrLn a
   out.putStrLn "."
-  loop h out cx'
+  loop h out st'
 
 def main : IO Unit := do
   let out ← IO.getStdout
